@@ -45,6 +45,7 @@ def make_workload(seed, i):
     """(description, files, cwd) for package i of this run."""
     rng = M.derive(seed, "c12", i)
     pkg = M.gen_package(rng.next())
+    M.randomize_target_options(pkg, rng.fork("options"), p=0.3)
     kind = rng.weighted([("plain", 3), ("versions", 4), ("invalid", 2)])
     desc = {"i": i, "kind": kind, "pkg_seed": pkg.render_seed}
     sh = rng.fork("shared")
